@@ -81,6 +81,9 @@ func (g *vfGamma) name(canon string) string {
 	switch g.rnd.Intn(6) {
 	case 0:
 		if c, ok := compact[canon]; ok {
+			if g.rnd.Intn(3) == 0 {
+				return strings.ToUpper(c) // "V:", "F:" ... the compact forms are case-insensitive too
+			}
 			return c
 		}
 	case 1:
